@@ -265,7 +265,7 @@ def run(ctx, progs):
                             u_ = unref(t_)
                             if u_ == ('const', 0) or (fast and is_call(u_, "copy_from_volatile_slice")):
                                 continue
-                            if loops.counts_iterations(b, il, pos_, u_):
+                            if loops.counts_iterations(b, il, pos_, u_) or loops.chain_len_term(b, il, u_):
                                 n_cnt += 1
                                 continue
                             okr = False
